@@ -79,14 +79,15 @@ def step (ω : Oracle) (L : Nat) (st : St) : Op → St × Res
   | .pushMove a x =>
     match st.slot a, st.slot x with
     | some ra, some rx =>
-      -- cbor_move: the count drops without releasing; a successful push takes it back up
-      match st.h.get rx with
-      | some c =>
-        let h := st.h.put rx (some { c with rc := c.rc - 1 })
-        match arrPush ω h ra rx with
-        | (true, h) => ({ st with h := h }.setSlot x none, .ok)
-        | (false, h) => ({ st with h := h.incref rx }, .refused)   -- the client takes its reference back
-      | none => (st.bad, .refused)
+      -- cbor_array_push(a, cbor_move(x)): the count drops by one without releasing and the push takes it back up; when the
+      -- push is refused the client takes its reference back (cbor_incref).  Modelled as push-then-give-up, which passes
+      -- through the same final states without an intermediate zero count.
+      match arrPush ω st.h ra rx with
+      | (true, h) =>
+        match h.get rx with
+        | some c => ({ st with h := h.put rx (some { c with rc := c.rc - 1 }) }.setSlot x none, .ok)
+        | none => ({ st with h := h.bad }, .refused)
+      | (false, h) => ({ st with h := h }, .refused)
     | _, _ => (st.bad, .refused)
   | .set a i x =>
     match st.slot a, st.slot x with
